@@ -207,9 +207,9 @@ Fixpoint rp (e : expr) : N :=
   | EUn _ x => N.min UNARY_PRIORITY (rp x)
   end.
 
-(** the text ends with a cast to a type name without type parameters *)
+(** the text ends with a cast to a type whose text ends with a type name without parameters *)
 Definition ends_bare (toks : list ptok) : bool :=
-  match last toks KLp with KCast CBare => true | _ => false end.
+  match last toks KLp with KCast t => ends_with_type_name t | _ => false end.
 
 Definition is_lt (o : binop) : bool := match o with LowerThan => true | _ => false end.
 
@@ -238,7 +238,7 @@ Definition prec_ok (P : ptable) : bool :=
       && (right_bin P o o' || (rprio o <? lprio o'))) binops
     && forallb (fun u => left_un P o u || (lprio o <=? UNARY_PRIORITY)) unops) binops
   && forallb (fun u => forallb (fun o' => un_bin P u o' || (UNARY_PRIORITY <? lprio o')) binops) unops
-  && cast_bin P && cast_un P && cast_cast P && left_cast P LowerThan CBare.
+  && cast_bin P && cast_un P && cast_cast P && left_cast P LowerThan true.
 
 (** * statement boundary (stage 3): the rule deciding whether a ";" is needed
 
